@@ -348,7 +348,7 @@ META = {
             "fingerprinting the undo log and the base store's internals; the base store must equal the (content, snapshot) model "
             "after every step. For two wrappers on one store, every pair of operation sequences (<=3 each), every merge order, "
             "every initial content and every ending is executed. Closure gives a verdict for histories of any length over the vocabulary.",
-    "note": "Small scope: 2 triples (one with a falsy object) x 2-3 graphs; Memory base store only; interleaving at operation granularity, "
+    "note": "Small scope: 2 triples (one with a falsy object) x 2-3 graphs; Memory base store only; single and bulk additions (addN with a repeated quad / over two graphs, +=); interleaving at operation granularity, "
             "no OS threads; 'content' is the quad set of the base store (the set of known-but-empty graphs is not compared).",
     "technique": "explicit-state BFS to closure over transaction histories + exhaustive merge-order enumeration for two wrappers",
 }
